@@ -313,7 +313,28 @@ def strategy(tier):
                 case["inject"] = case["inject"][:1]
         return case
 
-    return cases()
+    @st.composite
+    def stale_completion(draw):
+        """invocation #0 outlives its expiration; a second caller arrives after expiry and starts #1; #0 then completes
+        while #1 is in flight; a third caller arriving now must still share #1"""
+        exp = draw(st.sampled_from([1, 1.5, 2]))
+        d0 = exp + draw(st.sampled_from([0.5, 1]))
+        t_b = exp + 0.25  # after #0's entry expired, before #0 completes
+        d1 = draw(st.sampled_from([2, 3]))
+        t_c = d0 + draw(st.sampled_from([0.25, 0.5]))  # after #0 completed, while #1 is in flight and unexpired
+        callers = [{"key": 0, "at": 0}, {"key": 0, "at": t_b}, {"key": 0, "at": t_c}]
+        if draw(st.booleans()):
+            callers.append({"key": draw(st.integers(0, 1)), "at": draw(st.sampled_from([0, 0.5, t_c + 0.25]))})
+        return {
+            "limit": draw(st.sampled_from([1, 2])),
+            "exp": exp,
+            "method": draw(st.booleans()),
+            "callers": callers,
+            "invs": [{"dur": d0, "out": draw(st.sampled_from(["value", "exc"]))}, {"dur": d1, "out": "value"}, {"dur": 0.5, "out": "value"}],
+            "inject": None,
+        }
+
+    return st.one_of(cases(), cases(), cases(), stale_completion())
 
 
 def budget(tier):
